@@ -222,6 +222,8 @@ where
     /// Number of edges that were created by calling `connect` on this node.
     /// `iter()` yields exactly these edges first.
     pub(crate) fn len_outbound(&self) -> usize {
+        #[cfg(gdsl_verif)]
+        crate::verif_hook::lock_point(&self.inner.2, false);
         self.inner.2.read().unwrap().len_outbound()
     }
 
@@ -243,6 +245,8 @@ where
     /// assert!(a.out_degree() == 2);
     /// ```
     pub fn degree(&self) -> usize {
+        #[cfg(gdsl_verif)]
+        crate::verif_hook::lock_point(&self.inner.2, false);
         self.inner.2.read().unwrap().len_outbound() + self.inner.2.read().unwrap().len_inbound()
     }
 
@@ -264,11 +268,15 @@ where
     /// assert!(n1.is_connected(n2.key()));
     /// ```
     pub fn connect(&self, other: &Self, value: E) {
+        #[cfg(gdsl_verif)]
+        crate::verif_hook::lock_point(&self.inner.2, true);
         self.inner
             .2
             .write()
             .unwrap()
             .push_outbound((other.clone(), value.clone()));
+        #[cfg(gdsl_verif)]
+        crate::verif_hook::lock_point(&other.inner.2, true);
         other
             .inner
             .2
@@ -337,14 +345,22 @@ where
         // The half-edge removed here decides which half the other endpoint
         // loses: an edge is stored as outbound on its creator and inbound on
         // the other node.
+        #[cfg(gdsl_verif)]
+        crate::verif_hook::lock_point(&self.inner.2, true);
         let inbound = self.inner.2.write().unwrap().remove_inbound(other);
         match inbound {
             Ok(edge) => {
+                #[cfg(gdsl_verif)]
+                crate::verif_hook::lock_point(&node.inner.2, true);
                 node.inner.2.write().unwrap().remove_outbound(self.key())?;
                 Ok(edge)
             }
             Err(_) => {
+                #[cfg(gdsl_verif)]
+                crate::verif_hook::lock_point(&self.inner.2, true);
                 let edge = self.inner.2.write().unwrap().remove_outbound(other)?;
+                #[cfg(gdsl_verif)]
+                crate::verif_hook::lock_point(&node.inner.2, true);
                 node.inner.2.write().unwrap().remove_inbound(self.key())?;
                 Ok(edge)
             }
@@ -380,6 +396,8 @@ where
     /// ```
     pub fn isolate(&self) {
         for Edge(_, v, _) in self.iter() {
+            #[cfg(gdsl_verif)]
+            crate::verif_hook::lock_point(&v.inner.2, true);
             if v.inner
                 .2
                 .write()
@@ -387,6 +405,8 @@ where
                 .remove_inbound(self.key())
                 .is_err()
             {
+                #[cfg(gdsl_verif)]
+                crate::verif_hook::lock_point(&v.inner.2, true);
                 v.inner
                     .2
                     .write()
@@ -395,13 +415,19 @@ where
                     .unwrap();
             }
         }
+        #[cfg(gdsl_verif)]
+        crate::verif_hook::lock_point(&self.inner.2, true);
         self.inner.2.write().unwrap().clear_outbound();
+        #[cfg(gdsl_verif)]
+        crate::verif_hook::lock_point(&self.inner.2, true);
         self.inner.2.write().unwrap().clear_inbound();
     }
 
     /// Returns true if the node is an oprhan. Orphan nodes are nodes that have
     /// no connections.
     pub fn is_orphan(&self) -> bool {
+        #[cfg(gdsl_verif)]
+        crate::verif_hook::lock_point(&self.inner.2, false);
         self.inner.2.read().unwrap().len_outbound() == 0
             && self.inner.2.read().unwrap().len_inbound() == 0
     }
@@ -414,6 +440,8 @@ where
     /// Get a pointer to an adjacent node with a given key. Returns None if no
     /// node with the given key is found from the node's adjacency list.
     pub fn find_adjacent(&self, other: &K) -> Option<Node<K, N, E>> {
+        #[cfg(gdsl_verif)]
+        crate::verif_hook::lock_point(&self.inner.2, false);
         self.inner
             .2
             .read()
@@ -460,6 +488,8 @@ where
     }
 
     pub fn sizeof(&self) -> usize {
+        #[cfg(gdsl_verif)]
+        crate::verif_hook::lock_point(&self.inner.2, false);
         std::mem::size_of::<Node<K, N, E>>()
             + std::mem::size_of::<K>()
             + std::mem::size_of::<N>()
@@ -542,6 +572,8 @@ where
     type Item = Edge<K, N, E>;
 
     fn next(&mut self) -> Option<Self::Item> {
+        #[cfg(gdsl_verif)]
+        crate::verif_hook::lock_point(&self.node.inner.2, false);
         let adjacent = &self.node.inner.2.read().unwrap();
         match adjacent.get_adjacent(self.position) {
             Some((n, e)) => {
